@@ -188,6 +188,11 @@ func (pnf *PageNumberFinder) getPageInfoAndText(link *html.Node, pageURL *nurl.U
 			return nil, ""
 		}
 
+		// Only web pages can be the next or previous page.
+		if scheme := strings.ToLower(hrefURL.Scheme); scheme != "http" && scheme != "https" {
+			return nil, ""
+		}
+
 		hrefURL, err = nurl.Parse(linkHref)
 		if err != nil {
 			return nil, ""
